@@ -20,7 +20,7 @@ BOUND = ("RandomBinaryTree n in 1..7 (9 thorough) x depth in {None, 0..3} x repe
          "{identity, reversed, randomized} ordering; FullyFactorized n in 1..5 x repetitions 1..3; QuadTree / QuadGraph shapes (c,h,w) with c in 1..2, "
          "h,w in 1..4 (QuadTree splits 2 and 4); PoonDomingos shapes up to (1,4,4) x delta in {1, 2, [1,2]} x max_depth {None, 1}; ChowLiuTree on seeded "
          "categorical data with 3..6 features x roots; build_circuit: {cp, cp-t, tucker} and explicit (SumLayer, Hadamard|Kronecker) factories, "
-         "num_input_units 2, num_sum_units 2..3, num_classes 1..3")
+         "num_input_units 2, num_sum_units 2..3 (2 for cp-t / tucker, which refuse inputs of different sizes), num_classes 1..3")
 RULE = "one case = (algorithm, arguments, clause); distinct by that tuple; non-trivial when the graph has at least one partition"
 
 
@@ -129,12 +129,15 @@ def run(tier, seed):
                         ("factories-hadamard", dict(sum_factory=lambda i, o: SumLayer(i, o, 1), prod_factory=lambda i, a: HadamardLayer(i, a))),
                         ("factories-kronecker", dict(sum_factory=lambda i, o: SumLayer(i, o, 1), prod_factory=lambda i, a: KroneckerLayer(i, a)))]
             for vname, kw in variants:
-                case = dict(base, build=vname, num_classes=ncls, num_sum_units=nsum)
+                # cp-t / tucker refuse (documented ValueError) partitions whose inputs have different unit counts, which an
+                # unbalanced tree with num_input_units != num_sum_units produces: build them with equal unit counts
+                nsum_v = 2 if vname in ("cp-t", "tucker") else nsum
+                case = dict(base, build=vname, num_classes=ncls, num_sum_units=nsum_v)
 
                 def build():
                     if vname == "factories-kronecker" and (nparts > 6 or max((len(list(rg.partition_inputs(p))) for p in rg.nodes if isinstance(p, PartitionNode)), default=0) > 2):
                         return
-                    sc = rg.build_circuit(input_factory=inf, num_input_units=2, num_sum_units=nsum, num_classes=ncls, **kw)
+                    sc = rg.build_circuit(input_factory=inf, num_input_units=2, num_sum_units=nsum_v, num_classes=ncls, **kw)
                     s, d, sp = C09.circ_flags(sc)
                     ck.true("circuit_smooth_decomposable", case, s and d and sc.is_smooth and sc.is_decomposable, f"smooth={s} dec={d}", nontrivial=nt)
                     ck.true("circuit_scope", case, set(sc.scope) == set(rg.scope), f"scope {sorted(sc.scope)}", nontrivial=nt)
